@@ -64,9 +64,11 @@ func runOne(u Univ, cfg Config, prof Profile, seed uint64, steps int, path strin
 	}
 	defer t.Close()
 	var openFiles atomic.Int64
-	fs := countFS{FS: vfs.NewMem(), open: &openFiles}
+	hook := &fsHook{}
+	fs := countFS{FS: vfs.NewMem(), open: &openFiles, hook: hook}
 	baseGoroutines := runtime.NumGoroutine()
 	r := NewRunner(u, cfg, fs, "db", t)
+	r.Hook = hook
 	if err := r.Open(); err != nil {
 		r.fail(err)
 		return t.N, err
